@@ -538,6 +538,14 @@ def run_check(pid, tier, seed, replay=None):
         if replay and h.get("machine", prop.get("machine")) not in open(replay).read():
             continue
         res = run_harness(prop, h, idx, binp, tier, seed, log, replay=replay)
+        if res["harness_rc"] == 124 and not res["problems"] and not replay:
+            # The wall-clock budget ran out with nothing wrong seen so far: on a heavily loaded machine the
+            # harness is merely slow. Run it once more with four times the budget; a real hang times out
+            # again and is reported below, a slow run completes and is judged on its full transcript.
+            t1 = 4 * h.get("timeout_" + tier, 600 if tier == "quick" else 3600)
+            log.write("== harness %s hit its time budget with no problem seen; one retry with %ds\n" % (res["name"], t1))
+            res = run_harness(prop, h, idx, binp, tier, seed, log, replay=replay, timeout=t1)
+            res["retried_after_timeout"] = True
         results.append((idx, h, res))
         if res["harness_rc"] != 0 or res["driver_rc"] != 0 or not res["summary"] or not res["summary"].get("complete"):
             corr_problems.append("harness %s did not complete (rc=%s, driver rc=%s): %s" % (
